@@ -78,6 +78,18 @@ func init() {
     when "lim>=10";
     leaf augl { type string; }
   }
+  augment "/lw" {
+    when "sel>5";
+    container augc {
+      leaf ac { type string; }
+      leaf sel { type int32; }
+    }
+    list augls {
+      key "k";
+      leaf k { type string; }
+      leaf av { type string; }
+    }
+  }
   notification evt {
     leaf level { type int32; }
     leaf who { type string; }
